@@ -171,6 +171,7 @@ func (fr *forkRun) violation(class, msg string) {
 	fr.st.violations++
 	w := *fr.cs
 	w.What = msg
+	fr.c.Stat("violations "+class, 1)
 	fr.c.Violation(class, msg, &w)
 }
 
